@@ -228,6 +228,16 @@ void consume(Use &u, const Bytes &rec) {
             Buf bo(32), mo(4096); uint64_t vo; size_t ol = 4096;
             int rw = U01(secp256k1_rangeproof_rewind(ctx, bo.p(), &vo, mo.p(), &ol, F.rp_nonce, &mn, &mx, &F.commit[1], in.p, in.n, F.rp_extra, sizeof F.rp_extra, &F.gen)); expect_intact(u, rw, "secp256k1_rangeproof_rewind");
             { Buf small(7); size_t sl = 7; U01(secp256k1_rangeproof_rewind(ctx, bo.p(), &vo, small.p(), &sl, F.rp_nonce, &mn, &mx, &F.commit[1], in.p, in.n, F.rp_extra, sizeof F.rp_extra, &F.gen)); }
+            {   // every combination of the optional outputs the header allows, with the prover's nonce and with a wrong one
+                unsigned char wrong[32]; memcpy(wrong, F.rp_nonce, 32); wrong[31] ^= 1;
+                for (int wn = 0; wn < 2; wn++)
+                    for (int mv = 0; mv < 3; mv++) {
+                        Buf b2(32), m2(4096); uint64_t v2; size_t l2 = 4096;
+                        int rr = U01(secp256k1_rangeproof_rewind(ctx, mv == 1 ? NULL : b2.p(), mv == 2 ? NULL : &v2, mv == 1 ? NULL : m2.p(), mv == 0 ? &l2 : NULL,
+                                                                 wn ? wrong : F.rp_nonce, &mn, &mx, &F.commit[1], in.p, in.n, F.rp_extra, sizeof F.rp_extra, &F.gen));
+                        if (rr != (wn ? 0 : rw) && u.r.ok) { u.r.violate("C07", "rewind_verdict_depends_on_optional_outputs", "secp256k1_rangeproof_rewind", std::string("rewind returned ") + std::to_string(rr) + " with optional outputs variant " + std::to_string(mv) + (wn ? " and a wrong nonce" : "") + ", " + std::to_string(rw) + " with all outputs"); return; }
+                    }
+            }
             U01(secp256k1_rangeproof_verify(ctx, &mn, &mx, &F.commit[2], in.p, in.n, NULL, 0, &F.genb));
             break;
         }
